@@ -116,6 +116,9 @@ func monC08(c *drv.Ctx) {
 
 	// (1) bounded-exhaustive strings over the grammar alphabet
 	maxLen := int(c.Pick(5, 6))
+	if c.Slow() {
+		maxLen = 4
+	}
 	for n := 0; n <= maxLen; n++ {
 		n := n
 		total := gen.Pow(int64(len(gen.GrammarAlphabet)), n)
